@@ -7,6 +7,8 @@ known_findings.json, 2 harness error / timeout (never mapped to 0, never
 printed as VIOLATION).
 """
 import concurrent.futures as cf
+import pickle
+import signal
 import faulthandler
 import io
 import json
@@ -19,6 +21,9 @@ import traceback
 
 from .kernel import canon, digest
 
+from .kernel import HarnessError as _HE   # noqa: E402
+
+HarnessErrorTypes = (_HE,)
 VERIF = os.path.dirname(os.path.dirname(os.path.abspath(__file__)))
 # DST_OUT_DIR redirects evidence / replay output (used only by the mutant
 # and seeded-change drivers, which run checks against scratch copies)
@@ -47,6 +52,44 @@ class quiet:
 
     def __exit__(self, *a):
         sys.stdout, sys.stderr = self._o, self._e
+
+
+def isolated(fn, *args, timeout=1500, **kw):
+    """Run fn(*args) in a forked child and return its result.  Every plan
+    execution goes through here, so that process-global state of the code
+    under test (module-level caches, class attributes, the global random
+    module ...) always starts from the pristine post-import state: one plan
+    = one simulated OS process image, whatever a pool worker ran before."""
+    r, w = os.pipe()
+    pid = os.fork()
+    if pid == 0:
+        code = 0
+        try:
+            os.close(r)
+            signal.alarm(int(timeout))
+            try:
+                out = ('ok', fn(*args, **kw))
+            except HarnessErrorTypes as e:
+                out = ('harness', str(e))
+            except BaseException:   # noqa
+                out = ('error', traceback.format_exc())
+            with os.fdopen(w, 'wb') as f:
+                pickle.dump(out, f, protocol=pickle.HIGHEST_PROTOCOL)
+        except BaseException:   # noqa
+            code = 3
+        finally:
+            os._exit(code)
+    os.close(w)
+    with os.fdopen(r, 'rb') as f:
+        data = f.read()
+    _, st = os.waitpid(pid, 0)
+    if not data:
+        raise HarnessErrorTypes[0](
+            f'isolated child died (status {st}) - timeout or crash')
+    kind, val = pickle.loads(data)
+    if kind == 'ok':
+        return val
+    raise HarnessErrorTypes[0](f'isolated child {kind}: {val[-1500:]}')
 
 
 def _worker_init():
